@@ -164,6 +164,9 @@ def rand_pdu(rng, w, ep, size, force_kind=None):
         for _ in range(rng.choice([1, 1, 2, 3])):
             if len(b) > lo:
                 b[rng.randrange(lo, len(b))] = rng.randrange(256)
+        if rng.random() < 0.25:
+            # ... and of the flag / length-of-field bytes of the fixed header (not of the data field length)
+            b[rng.choice([0, 3])] ^= 1 << rng.randrange(8)
         raw = bytes(b)
         f = dict(f, mutated_bytes=True)
     if kind == "MD" and f.get("src_name") and not conf.crc_flag and rng.random() < 0.15:
